@@ -1070,6 +1070,20 @@ __CPROVER_assigns(g_cpos)
                   runs=[Run(backend="sat", timeout=600)],
                   harness=H("  g_ncol = nondet_uint(); modulus = nondet_uint(); g_cpos = 0;\n  for (int k = 0; k < KP; k++) { g_col[k].id = nondet_ulong(); g_col[k].coef = nondet_uint(); g_col[k].diam = nondet_float(); }", "pop_pivot();"),
                   desc="pop_pivot: entries with the same simplex index that the heap pops consecutively are added up modulo the characteristic (the modular addition itself is uninterpreted); the first index whose sum is not zero is returned with that sum, everything before it (sums equal to zero) is consumed; nothing is returned when every index cancels"))
+    stub_pp = Fn(RP, r"template <typename Column> std::optional<diameter_entry_t> pop_pivot\(Column& column\)", "pop_pivot", """
+__CPROVER_ensures(__CPROVER_return_value.has == g_pp.has && __CPROVER_return_value.id == g_pp.id && __CPROVER_return_value.coef == g_pp.coef && g_pp_calls == __CPROVER_old(g_pp_calls) + 1)
+__CPROVER_assigns(g_pp_calls)
+""", sig_subs=SS, subs=subs)
+    fn_gp = Fn(RP, r"template <typename Column> std::optional<diameter_entry_t> get_pivot\(Column& column\)", "get_pivot", """
+__CPROVER_requires(g_pp_calls == 0 && g_pushed == 0)
+__CPROVER_ensures(__CPROVER_return_value.has == g_pp.has && (!g_pp.has || (__CPROVER_return_value.id == g_pp.id && __CPROVER_return_value.coef == g_pp.coef)) && g_pp_calls == 1)
+__CPROVER_ensures(g_pushed == (g_pp.has ? 1 : 0) && (!g_pp.has || (g_push_e.id == g_pp.id && g_push_e.coef == g_pp.coef)))
+__CPROVER_assigns(g_pp_calls, g_pushed, g_push_e)
+""", sig_subs=SS, subs=[(r"std::optional<diameter_entry_t>", "vp_opt")] + [(a_, b_, 0) for a_, b_ in subs] + [(r"pop_pivot\(column\)", "pop_pivot()"), (r"if \((\w+)\) column\.push\(\*\1\);", r"if (\1.has) col_push((dentry){\1.diam, \1.id, \1.coef});")],
+               canary=(r"if \((\w+)\.has\) col_push", r"if (!\1.has) col_push"))
+    U.append(Unit("reduction.get_pivot", "C11", [stub_pp, fn_gp], enforce="get_pivot", replace=["pop_pivot"], globals_=G + "vp_opt g_pp; unsigned g_pp_calls;\n", inputs=["g_pp"], replay=replay_by_native_search,
+                  harness=H("  g_pp.has = nondet_int() != 0; g_pp_calls = 0; g_pushed = 0;", "get_pivot();"),
+                  desc="get_pivot: the pivot popped by pop_pivot is pushed back once (the column keeps it) and returned; nothing is pushed when there is no pivot"))
 
 def enumerator_units(U):
     """dense Simplex_coboundary_enumerator_::next(): filters the raw cofacets by the threshold.  next_raw (the
